@@ -126,6 +126,13 @@ theorem lstep_backed {t t' : LS} {e : LEv} (hb : Backed t) (h : lstep true t e =
       · cases h
         simp [keepOne_my, keepOne_cheats, keepOne_running, c1, c2, c3]
         omega
+  · -- exitTop
+    split at h
+    · cases h
+    · split at h
+      · cases h
+      · cases h
+        split <;> simp [keepOne_my, keepOne_cheats, keepOne_running, c1, c2, c3] <;> omega
 
 /-- From a `Backed` state no assertion fails: neither the one of `start` (`my = 1`) nor the two of
 `do_force_return_tokens` (`cheats ≤ my`, `cheats ≤ 1`). -/
@@ -148,6 +155,15 @@ theorem lstep_no_panic {t : LS} {e : LEv} (hb : Backed t) : lstep true t e ≠ .
       · cases h
   · split at h <;> cases h
   · split at h <;> cases h
+  · split at h
+    · rename_i hc
+      simp [keepOne_my, keepOne_cheats, c1, c2] at hc
+      omega
+    · split at h
+      · rename_i hc
+        simp [keepOne_my, keepOne_cheats, c1, c2] at hc
+        omega
+      · cases h
   · split at h
     · rename_i hc
       simp [keepOne_my, keepOne_cheats, c1, c2] at hc
@@ -181,8 +197,44 @@ theorem lstep_exit {t : LS} (hb : Backed t) (hx : t.exited = false) :
       · simp [keepOne_running, c3]
       · simp [keepOne_my, c2]; omega
 
+/-- `exitTop` is `exit` followed by the token taken back from the pipe when the process would leave with nothing. -/
+theorem lstepG_exitTop (fr fe : Bool) (t : LS) :
+    lstepG fr fe t .exitTop =
+      match lstepG fr fe t .exit with
+      | .ok t' => .ok (if t'.my = 0 ∧ t'.cheats = 0 then { t' with my := 1 } else t')
+      | r => r := by
+  simp only [lstepG]
+  split
+  · rfl
+  · split
+    · rfl
+    · split
+      · rfl
+      · simp only
+        split <;> rfl
+
+/-- `do_force_return_tokens` does not depend on which event loop (pinned or repaired) ran before it. -/
+theorem lstepG_exit_indep (fr fe : Bool) (t : LS) : lstepG fr fe t .exit = lstepG true true t .exit := rfl
+
+theorem lstepG_exitTop_indep (fr fe : Bool) (t : LS) : lstepG fr fe t .exitTop = lstepG true true t .exitTop := rfl
+
+/-- The exit of the top of a redo tree from a `Backed` state: it happens (before the first exit) and the process leaves
+with exactly one token. -/
+theorem lstep_exitTop {t : LS} (hb : Backed t) (hx : t.exited = false) :
+    ∃ t', lstep true t .exitTop = .ok t' ∧ t'.cheats ≤ t'.my ∧ t'.my = 1 ∧ t'.exited = true ∧
+      t'.running = t.running := by
+  obtain ⟨u, h1, h2, h3, h4, h5, _⟩ := lstep_exit hb hx
+  simp only [lstep] at h1
+  simp only [lstep, lstepG_exitTop, h1]
+  refine ⟨_, rfl, ?_⟩
+  split
+  · rename_i hc
+    exact ⟨by simp only; omega, rfl, h4, h5⟩
+  · rename_i hc
+    exact ⟨h2, by omega, h4, h5⟩
+
 /-- Only the exit sets `exited`. -/
-theorem lstep_not_exited {t t' : LS} {e : LEv} (he : e ≠ .exit) (h : lstep true t e = .ok t') : t'.exited = false := by
+theorem lstep_not_exited {t t' : LS} {e : LEv} (he : e ≠ .exit) (he' : e ≠ .exitTop) (h : lstep true t e = .ok t') : t'.exited = false := by
   have hx := lstep_live h
   cases e <;> simp only [lstep, lstepG, hx, Bool.false_eq_true, ↓reduceIte] at h
   · split at h
@@ -199,6 +251,7 @@ theorem lstep_not_exited {t t' : LS} {e : LEv} (he : e ≠ .exit) (h : lstep tru
   · split at h <;> cases h; first | rfl | exact hx
   · split at h <;> cases h <;> simp [release_exited, keepOne_exited, hx]
   · exact absurd rfl he
+  · exact absurd rfl he'
 
 /-- `start` and `release_mine` are "disabled" exactly without a token (before the exit); one poll of `wait_all` is
 always possible. -/
@@ -261,6 +314,11 @@ theorem lstep_running {t t' : LS} {e : LEv} (hs : lstep true t e = .ok t') :
   · split at hs
     · cases hs
     · split at hs <;> cases hs; simp [runningDelta, keepOne_running, c3]
+  · split at hs
+    · cases hs
+    · split at hs
+      · cases hs
+      · cases hs; split <;> simp [runningDelta, keepOne_running, c3]
 
 /-! ## The control flow alone: what each event does to `tokHeld` -/
 
@@ -316,6 +374,10 @@ structure PInv (s : PSt) : Prop where
 theorem PInv.init : PInv {} :=
   ⟨Inv1.init, by decide, (by intro h; cases h), (by simp [Backed]), (by intro h; cases h)⟩
 
+/-- The same for a process at the top of its redo tree under a foreign jobserver (or not: any `treeTop`). -/
+theorem PInv.initTop (top : Bool) : PInv { treeTop := top } :=
+  ⟨Inv1.init, Nat.le_refl 1, (by intro h; cases h), (by simp [Backed]), (by intro h; cases h)⟩
+
 /-- Result of one product step from a state that satisfies the invariant: never `stuck`, never `panic`, and the
 invariant is kept. -/
 def Good : PRes → Prop
@@ -331,7 +393,8 @@ theorem driven_good {s : PSt} {ctl' : St} {e : LEv} (hi : PInv s) (hx : s.tok.ex
   cases hl : lstep true s.tok e with
   | ok t =>
     have hne : e ≠ .exit := by rcases he with rfl | rfl | rfl <;> intro h <;> cases h
-    have hx' := lstep_not_exited hne hl
+    have hne' : e ≠ .exitTop := by rcases he with rfl | rfl | rfl <;> intro h <;> cases h
+    have hx' := lstep_not_exited hne hne' hl
     exact ⟨hc, lstep_my_le hi.backed hl, by simp [hheld], lstep_backed hi.backed hl, by simp [hx']⟩
   | disabled =>
     have h0 := lstep_disabled_driven hx he hl
@@ -349,13 +412,22 @@ theorem driven_exit_good {s : PSt} {ctl' : St} {ok : Bool} (hi : PInv s) (hx : s
   rw [h1]
   exact ⟨hc, h3, fun h => h6 (hi.hand (by rw [← hheld]; exact h)), lstep_backed hi.backed h1, fun _ => ⟨ok, hpc⟩⟩
 
+/-- `do_force_return_tokens` of the top of a redo tree under a foreign jobserver when `run` returns. -/
+theorem driven_exitTop_good {s : PSt} {ctl' : St} {ok : Bool} (hi : PInv s) (hx : s.tok.exited = false)
+    (hc : Inv1 ctl') (hpc : ctl'.pc = .ended ok) : Good (driven s ctl' .exitTop) := by
+  obtain ⟨t', h1, _, h3, _, _⟩ := lstep_exitTop hi.backed hx
+  unfold driven
+  rw [h1]
+  exact ⟨hc, by simp only; omega, fun _ => h3, lstep_backed hi.backed h1, fun _ => ⟨ok, hpc⟩⟩
+
 theorem env_good {s : PSt} {e : LEv} (hi : PInv s)
     (he : e = .childExit ∨ e = .childExitEat ∨ e = .tokenRead ∨ e = .cheat) : Good (env s e) := by
   unfold env
   cases hl : lstep true s.tok e with
   | ok t =>
     have hne : e ≠ .exit := by rcases he with rfl | rfl | rfl | rfl <;> intro h <;> cases h
-    have hx' := lstep_not_exited hne hl
+    have hne' : e ≠ .exitTop := by rcases he with rfl | rfl | rfl | rfl <;> intro h <;> cases h
+    have hx' := lstep_not_exited hne hne' hl
     exact ⟨hi.ctl, lstep_my_le hi.backed hl, fun h => lstep_env_keeps_one he (hi.hand h) hl,
       lstep_backed hi.backed hl, by simp [hx']⟩
   | disabled => trivial
@@ -379,7 +451,7 @@ theorem pstep_good {c : Cfg} {s : PSt} (hi : PInv s) (ev : PEv) : Good (pstep c 
         | true =>
           obtain ⟨ok, hp⟩ := hi.live hx
           exact absurd hp (step_not_ended hs ok)
-      have keep : touchesToken e = false → Good (.ok { ctl := ctl', tok := s.tok }) := fun hu =>
+      have keep : touchesToken e = false → Good (.ok { s with ctl := ctl' }) := fun hu =>
         ⟨hc, hi.le, fun h => hi.hand (by rw [← step_other_held hs hu]; exact h), hi.backed, by simp [hx]⟩
       cases e with
       | tok =>
@@ -401,7 +473,10 @@ theorem pstep_good {c : Cfg} {s : PSt} (hi : PInv s) (ev : PEv) : Good (pstep c 
       | waitAll =>
         exact driven_good hi hx hc (step_waitAll_held hs) (.inr (.inr rfl)) (.inl rfl)
       | fin ok =>
-        exact driven_exit_good hi hx hc (step_other_held hs rfl) (step_fin_ended hs)
+        simp only
+        split
+        · exact driven_exitTop_good hi hx hc (step_fin_ended hs)
+        · exact driven_exit_good hi hx hc (step_other_held hs rfl) (step_fin_ended hs)
       | _ => exact keep rfl
 
 theorem prun_good {c : Cfg} {s : PSt} (hi : PInv s) (es : List PEv) : Good (prun c s es) := by
@@ -464,7 +539,11 @@ theorem pstep_running {c : Cfg} {s s' : PSt} {ev : PEv} (h : pstep c s ev = .ok 
       | forked f => have := drv _ _ h; simp [isExit, isFork, runningDelta] at this ⊢; omega
       | releaseMine => have := drv _ _ h; simp [isExit, isFork, runningDelta] at this ⊢; omega
       | waitAll => have := drv _ _ h; simp [isExit, isFork, runningDelta] at this ⊢; omega
-      | fin ok => have := drv _ _ h; simp [isExit, isFork, runningDelta] at this ⊢; omega
+      | fin ok =>
+        have := drv _ _ h
+        have hd : runningDelta (if s.treeTop then .exitTop else .exit) = 0 := by cases s.treeTop <;> rfl
+        rw [hd] at this
+        simp [isExit, isFork] at this ⊢; omega
       | _ => cases h; simp [isExit, isFork]
 
 theorem prun_cons_ok {c : Cfg} {s s' : PSt} {e : PEv} {es : List PEv} (h : prun c s (e :: es) = .ok s') :
@@ -487,6 +566,78 @@ theorem prun_running {c : Cfg} {s s' : PSt} {es : List PEv} (h : prun c s es = .
     simp only [List.countP_cons]
     split at b <;> split at b <;> simp_all <;> omega
 
+
+/-! ## The top of a redo tree: `treeTop` never changes, and after the exit the process holds one token -/
+
+theorem pstep_top {c : Cfg} {s s' : PSt} {ev : PEv} (hi : PInv s) (h : pstep c s ev = .ok s') :
+    s'.treeTop = s.treeTop ∧
+      (s.treeTop = true → (s.tok.exited = true → s.tok.my = 1) → s'.tok.exited = true → s'.tok.my = 1) := by
+  have envc : ∀ e, e ≠ .exit → e ≠ .exitTop → env s e = .ok s' → s'.treeTop = s.treeTop ∧ s'.tok.exited = false := by
+    intro e h1 h2 he
+    unfold env at he
+    cases hl : lstep true s.tok e with
+    | ok t => rw [hl] at he; cases he; exact ⟨rfl, lstep_not_exited h1 h2 hl⟩
+    | disabled => rw [hl] at he; cases he
+    | panic => rw [hl] at he; cases he
+  have drv : ∀ ctl' e, e ≠ .exit → e ≠ .exitTop → driven s ctl' e = .ok s' →
+      s'.treeTop = s.treeTop ∧ s'.tok.exited = false := by
+    intro ctl' e h1 h2 he
+    unfold driven at he
+    cases hl : lstep true s.tok e with
+    | ok t => rw [hl] at he; cases he; exact ⟨rfl, lstep_not_exited h1 h2 hl⟩
+    | disabled => rw [hl] at he; cases he
+    | panic => rw [hl] at he; cases he
+  have fromLive : s'.treeTop = s.treeTop ∧ s'.tok.exited = false →
+      s'.treeTop = s.treeTop ∧
+        (s.treeTop = true → (s.tok.exited = true → s.tok.my = 1) → s'.tok.exited = true → s'.tok.my = 1) :=
+    fun ⟨a, b⟩ => ⟨a, fun _ _ hx => by rw [b] at hx; cases hx⟩
+  cases ev with
+  | childExit => exact fromLive (envc _ (by intro h; cases h) (by intro h; cases h) h)
+  | childExitEat => exact fromLive (envc _ (by intro h; cases h) (by intro h; cases h) h)
+  | tokenRead => exact fromLive (envc _ (by intro h; cases h) (by intro h; cases h) h)
+  | cheat => exact fromLive (envc _ (by intro h; cases h) (by intro h; cases h) h)
+  | ctl e =>
+    simp only [pstep, pstepG] at h
+    cases hs : step c s.ctl e with
+    | error r => rw [hs] at h; cases h
+    | ok ctl' =>
+      rw [hs] at h
+      cases e with
+      | tok =>
+        simp only at h
+        split at h
+        · cases h
+        · cases h; exact ⟨rfl, fun _ hk => hk⟩
+      | forked f => exact fromLive (drv _ _ (by intro h; cases h) (by intro h; cases h) h)
+      | releaseMine => exact fromLive (drv _ _ (by intro h; cases h) (by intro h; cases h) h)
+      | waitAll => exact fromLive (drv _ _ (by intro h; cases h) (by intro h; cases h) h)
+      | fin ok =>
+        simp only at h
+        unfold driven at h
+        cases hl : lstep true s.tok (if s.treeTop = true then LEv.exitTop else LEv.exit) with
+        | ok t =>
+          rw [hl] at h; cases h
+          refine ⟨rfl, fun ht _ _ => ?_⟩
+          rw [ht] at hl
+          simp only [if_true] at hl
+          obtain ⟨t', h1, _, h3, _⟩ := lstep_exitTop hi.backed (lstep_live hl)
+          rw [h1] at hl; cases hl; exact h3
+        | disabled => rw [hl] at h; cases h
+        | panic => rw [hl] at h; cases h
+      | _ => cases h; exact ⟨rfl, fun _ hk => hk⟩
+
+theorem prun_top {c : Cfg} {s s' : PSt} {es : List PEv} (hi : PInv s) (h : prun c s es = .ok s') :
+    s'.treeTop = s.treeTop ∧
+      (s.treeTop = true → (s.tok.exited = true → s.tok.my = 1) → s'.tok.exited = true → s'.tok.my = 1) := by
+  induction es generalizing s with
+  | nil => cases h; exact ⟨rfl, fun _ hk => hk⟩
+  | cons e es ih =>
+    obtain ⟨s1, h1, h2⟩ := prun_cons_ok h
+    have hg := pstep_good (c := c) hi e
+    rw [h1] at hg
+    obtain ⟨a1, a2⟩ := pstep_top hi h1
+    obtain ⟨b1, b2⟩ := ih hg h2
+    exact ⟨by rw [b1, a1], fun ht hk => b2 (by rw [a1]; exact ht) (a2 ht hk)⟩
 
 /-! ## The product does not change the control flow: projection to `RunLoop.run` -/
 
